@@ -81,7 +81,13 @@ func VerifLinkMapContract() {
 	probe := verifrt.String(verifrt.Choose(3))
 	want := firstFor(probe)
 	r1, e1 := node.LookupByString(probe)
-	r2, e2 := node.LookupByNode(basicnode.NewString(probe))
+	var keyNode datamodel.Node = basicnode.NewString(probe)
+	if verifrt.Choose(2) == 1 {
+		// a key of the dag-pb string type, as the directory's own iterators hand out
+		keyNode, _ = dagpb.Type.String.FromString(probe)
+		verifrt.Reach("dagpb-string-key")
+	}
+	r2, e2 := node.LookupByNode(keyNode)
 	r3, e3 := node.LookupBySegment(datamodel.PathSegmentOfString(probe))
 	var r4 dagpb.Link
 	pk, _ := dagpb.Type.String.FromString(probe)
